@@ -721,7 +721,10 @@ def run_survey(scene: Scene, mm, code, si, day, rng, model=True, report=None):
         troll = rec.temporal.get(n, rng.randint(0, 1))
         emis.append("[%d,%d,%d,%d,%d,%d,%d,%d,%d,[]]" % (
             n, s_idx, scene.eqg_index[g_name], scene.comp_index[c_name], to_units(em.get_rate()),
-            1 if act else 0, 1 if state_before[n][1] else 0, sroll, troll))
+            1 if act else 0,
+            # "emitting" handed to the model: from the configured on / off cycle (for emissions in an active list),
+            # not from the emission's own is_emitting()
+            1 if (scene.expected_emitting(n, day) if act else state_before[n][1]) else 0, sroll, troll))
     req = "survey %s %d %d %d %s %s %s 1" % (
         code, midx, si, to_units(mdl),
         "[" + ",".join("[%d,[%s]]" % (g, ",".join(map(str, cs))) for g, cs in layout) + "]",
